@@ -344,8 +344,14 @@ func genCase(t *rapid.T) Case {
 				add(f)
 				c.Frames[len(c.Frames)-1].Masked = !good
 			case 7:
-				add(F{Fin: rapid.Bool().Draw(t, "tfin"), Op: byte(rapid.IntRange(1, 2).Draw(t, "vop4")), LenForm: 64,
-					Declared: rapid.SampledFrom([]uint64{1 << 63, 1<<63 + 1, 1<<64 - 1, 1<<63 + 100}).Draw(t, "topbit"), Len: rapid.SampledFrom([]int{0, 100}).Draw(t, "toplen")})
+				top := F{Fin: rapid.Bool().Draw(t, "tfin"), Op: byte(rapid.IntRange(1, 2).Draw(t, "vop4")), LenForm: 64,
+					Declared: rapid.SampledFrom([]uint64{1 << 63, 1<<63 + 1, 1<<64 - 1, 1<<63 + 100, 1<<64 - 5, 1<<64 - 6, 1<<64 - 256}).Draw(t, "topbit"), Len: rapid.SampledFrom([]int{0, 100}).Draw(t, "toplen")}
+				if rapid.Bool().Draw(t, "topcont") {
+					// the top-bit length arrives in a continuation frame, after some bytes of the message
+					add(F{Fin: false, Op: top.Op, Len: rapid.SampledFrom([]int{0, 1, 5, 6, 255, 256, 300}).Draw(t, "toppre"), Fill: 77})
+					top.Op = 0
+				}
+				add(top)
 			default:
 				add(F{Fin: true, Op: 9, Len: 3, LenForm: 16})
 			}
@@ -544,7 +550,7 @@ func (s sym) frame(server bool) F {
 
 func TestOdometer(t *testing.T) {
 	depth := ev.N(2, 3)
-	lenks := []int{0, 1, 3, 4, 5, 6}
+	lenks := []int{0, 1, 3, 4, 5, 6, 9}
 	if ev.Thorough() {
 		lenks = []int{0, 1, 2, 3, 4, 5, 6, 7, 8, 9}
 	}
